@@ -214,6 +214,19 @@ def run_case(spec, ctx):
             dq = np.abs(q2[:m] - qF[k:k + m]).max()
             du = np.abs(u2[:m] - uF[k:k + m]).max()
             ctx.extra("max_dq", float(dq))
+            if solver == "ScipyIVP":
+                # the ODE wrapper reports accelerations and multipliers as functions of the state at each output time: the
+                # continued run must report the same ones as the uninterrupted run
+                for fld in ("u_dot", "la_g", "la_c"):
+                    a_, b_ = getattr(second, fld, None), getattr(full, fld, None)
+                    if a_ is None or b_ is None or np.asarray(a_).size == 0:
+                        continue
+                    a_, b_ = np.asarray(a_)[:m], np.asarray(b_)[k:k + m]
+                    ctx.mon("fields")
+                    if a_.shape != b_.shape or np.abs(a_ - b_).max() > 1e-5 * (1 + np.abs(b_).max()):
+                        ctx.violation("ScipyIVP.restart", "accelerations / multipliers reported for the continued run differ from those of the uninterrupted run at the same states",
+                                      {**exk, "field": fld, "max_diff": float(np.abs(a_ - b_).max()) if a_.shape == b_.shape else "shape"})
+                        break
             if not (dq <= 1e-6 * (1 + np.abs(qF).max()) and du <= 1e-5 * (1 + np.abs(uF).max())):
                 ctx.violation(f"{solver}.restart", "trajectory continued from the re-initialised system differs from the uninterrupted run",
                               {**exk, "max_dq": float(dq), "max_du": float(du)}, key=_kf_traj(sc, det))
